@@ -428,6 +428,29 @@ def c08(tier):
             ck.violation("C08.total", f"{_cls(d, r['T_error'][0])}:{r['name']}:trials_per_sample", f"design {r['name']}: trials_per_sample raised {r['T_error'][:2]}",
                          _replay(d, strategy="trials_per_sample", exception=r["T_error"]))
         ck.sample(dict(design=r["name"], strategies=strats))
+    # the call must RETURN: a sampler back end that ends the interpreter on an unsatisfiable formula (pyunigen does) is not "a possibly empty list"
+    import subprocess
+    import sys as _sys
+    prog = ("import warnings, sys, io; warnings.filterwarnings('ignore'); import sweetpea as sp\n"
+            "c = sp.Factor('c', ['r', 'g'])\n"
+            "b = sp.CrossBlock([c], [c], [sp.ExactlyK(2, (c, 'r'))])\n"
+            "so = sys.stdout; sys.stdout = io.StringIO()\n"
+            "try:\n    r = sp.synthesize_trials(b, 3, getattr(sp, sys.argv[1]))\nfinally:\n    sys.stdout = so\n"
+            "print('RETURNED', len(r))\n")
+    for s in ("UniGen", "CMSGen", "IterateSATGen", "RandomGen"):
+        try:
+            pr = subprocess.run([_sys.executable, "-c", prog, s], capture_output=True, text=True, timeout=180, cwd="/")
+            out = pr.stdout + pr.stderr
+            ok = "RETURNED 0" in out
+            how = f"exit status {pr.returncode}, output tail {out[-200:]!r}"
+        except subprocess.TimeoutExpired:
+            ck.oblig(f"C08.returns(unsatisfiable,{s})", "E", "undecided", detail="subprocess timed out")
+            continue
+        ck.count(("returns", s))
+        ck.oblig(f"C08.returns(unsatisfiable,{s})", "E", "passed" if ok else "failed", detail=None if ok else how)
+        if not ok:
+            ck.violation("C08.returns", f"unsatisfiable-design:{s}", f"synthesize_trials(CrossBlock([c],[c],[ExactlyK(2,(c,'r'))]), 3, {s}) did not return an empty list: {how}",
+                         dict(replay_kind="script", script=prog, argv=[s]), tags=dict(kind="no-return", strategy=s))
     ck.rule = "one case per design of D that the constructors accept (designs they reject are outside the property), each run with every listed strategy"
     ck.trust(*TRUST[:2])
     ck.assume("bounded design space D", "a worker that exceeds the wall-clock limit is reported undecided, not as an exception")
